@@ -14,8 +14,8 @@ import (
 	pb "google.golang.org/protobuf/proto"
 
 	"github.com/oxia-db/oxia/common/concurrent"
-	"github.com/oxia-db/oxia/common/vhook"
 	time2 "github.com/oxia-db/oxia/common/time"
+	"github.com/oxia-db/oxia/common/vhook"
 	"github.com/oxia-db/oxia/proto"
 	"github.com/oxia-db/oxia/server"
 	"github.com/oxia-db/oxia/server/kv"
